@@ -504,6 +504,14 @@ func genJSONText(t *rapid.T) JSONTextCase {
 			ms = append(ms, vh.Member{Name: ms[i].Name, Raw: rapid.SampledFrom([]string{`""`, `"other"`}).Draw(t, "dv")})
 			kind = "dup"
 		}
+	case 3: // a case variant of a member beside the exact one, with another value of the right or a wrong type
+		if len(ms) > 0 {
+			i := rapid.IntRange(0, len(ms)-1).Draw(t, "vi")
+			n := ms[i].Name
+			variant := rapid.SampledFrom([]string{strings.ToUpper(n), strings.ToLower(n), strings.ToUpper(n[:1]) + n[1:]}).Draw(t, "vn")
+			ms = append(ms, vh.Member{Name: variant, Raw: rapid.SampledFrom([]string{`""`, `"other"`, `0`, `6`, `8`, `true`, `false`, `null`, `{}`}).Draw(t, "vv")})
+			kind = "dup-case"
+		}
 	}
 	if rapid.Bool().Draw(t, "shuffle") {
 		ms = rapid.Permutation(ms).Draw(t, "order")
@@ -575,7 +583,7 @@ func checkUnmarshalText(text string) (cls string, err error) {
 
 func TestC15JSONText(t *testing.T) {
 	vh.Run(t, vh.Spec[JSONTextCase]{Property: "C15", Name: "TestC15JSONText",
-		Rule: "hand-built JSON objects under the documented wire names with a required member dropped (3 of 8) or empty (~8% each), a string member carrying legacy bait (' req=a@b '), one member retyped / upper-cased / duplicated, shuffled order, surrounding whitespace; other JSON values (null, arrays, numbers, strings, trailing data). Oracle: when encoding/json decodes the text into the attribute shape the result is exactly that interpretation, or an error iff a required member is empty - never the legacy interpretation; otherwise accepted results must follow from a requester token. Non-trivial: JSON attribute objects (complete or incomplete).",
+		Rule: "hand-built JSON objects under the documented wire names with a required member dropped (3 of 8) or empty (~8% each), a string member carrying legacy bait (' req=a@b '), one member retyped / upper-cased / duplicated / accompanied by a case variant with another value, shuffled order, surrounding whitespace; other JSON values (null, arrays, numbers, strings, trailing data). Oracle: when encoding/json decodes the text into the attribute shape the result is exactly that interpretation, or an error iff a required member is empty - never the legacy interpretation; otherwise accepted results must follow from a requester token. Non-trivial: JSON attribute objects (complete or incomplete).",
 		Gen:  genJSONText,
 		Exec: func(c JSONTextCase) (vh.Outcome, error) {
 			cls, err := checkUnmarshalText(c.Text)
